@@ -537,6 +537,7 @@ def minimise_set(s, cls, tier):
 
 def _min_job(args):
     s, cls, detail, extra, tier, seed = args
+    set_min_budget()
     try:
         m, ok = minimise_set(s, cls, tier)
     except HarnessError:
